@@ -30,6 +30,7 @@ theorem stopFinish_quiet (s : St) (h : Quiet s) : Quiet (stopFinish s) := by
 
 theorem stopFinish_calm (s : St) (h : Calm s) : Calm (stopFinish s) := by
   obtain ⟨h1, h2, h3⟩ := h
+  have hn : activeReq ReqD.none = none := rfl
   unfold Calm CalmR stopFinish crash emit at *; grind
 
 /-- cancelling the request does not touch a parked reply -/
